@@ -119,6 +119,7 @@ func main() {
 		return
 	}
 	C = core.New("C19")
+	childEnv = append(os.Environ(), "GOMAXPROCS=4")
 	self, _ = os.Executable()
 	for _, s := range allScalars() {
 		byID[s.ID] = s
@@ -212,8 +213,13 @@ func loadListedKnown() {
 	}
 }
 
+// baseCmd: the swagger command behind a workload label.
+func baseCmd(cmd string) string {
+	return strings.TrimSuffix(strings.TrimSuffix(cmd, "-as-primary"), "-rev")
+}
+
 func keyOf(f finding, who string) string {
-	return fmt.Sprintf("C19/%s/%s/%s/%s", f.Cmd, f.Half, who, f.Mode)
+	return fmt.Sprintf("C19/%s/%s/%s/%s", baseCmd(f.Cmd), f.Half, who, f.Mode)
 }
 
 // report turns the findings of a case into violations. For an atom the key is
@@ -452,7 +458,7 @@ func replay() {
 // keyMatches: C19/<cmd>/<half>/.../<mode>[/composite|/<opts>]
 func keyMatches(key string, f finding) bool {
 	parts := strings.Split(key, "/")
-	if len(parts) < 4 || parts[1] != f.Cmd || parts[2] != f.Half {
+	if len(parts) < 4 || parts[1] != baseCmd(f.Cmd) || parts[2] != f.Half {
 		return false
 	}
 	for _, p := range parts[3:] {
